@@ -165,6 +165,54 @@ def check_cases(sdk, cases, tag='cases', shard=None, viewf=None):
     return [x for r in res for x in r]
 
 
+UHEADER = """From Coq Require Import List Strings.Byte Strings.String.
+From Minidyn Require Import Base.Str Base.FMap Base.Outcome Model.Value Model.Token Model.Unit.
+Import ListNotations.
+Local Open Scope byte_scope.
+"""
+
+
+def check_units(units, tag='units', shard=None):
+    """units: list of (id, op, ob). Returns the ids whose model result differs from the implementation's."""
+    d = os.path.join(BUILD, 'cases')
+    os.makedirs(d, exist_ok=True)
+    shard = shard or max(20, (len(units) + 13) // 14)
+    shards = [units[i:i + shard] for i in range(0, len(units), shard)]
+    files = []
+    for n, su in enumerate(shards):
+        name = '%s_%d_%d' % (re.sub(r'\W', '_', tag), os.getpid(), n)
+        path = os.path.join(d, name + '.v')
+        with open(path, 'w') as f:
+            f.write(UHEADER)
+            f.write('Definition cases : list ucase :=\n [\n')
+            f.write(';\n'.join(coqterm.cucase(op, ob) for _, op, ob in su))
+            f.write('\n ].\nDefinition M := Eval vm_compute in umismatches cases.\nPrint M.\n')
+        files.append((path, su))
+
+    def one(pc):
+        path, su = pc
+        rc, log = coqc_file(path)
+        for ext in ('.v', '.vo', '.vok', '.vos', '.glob'):
+            try:
+                os.remove(path[:-2] + ext)
+            except OSError:
+                pass
+        try:
+            os.remove(os.path.join(os.path.dirname(path), '.' + os.path.basename(path)[:-2] + '.aux'))
+        except OSError:
+            pass
+        if rc:
+            raise BuildError('coqc-units', log[-3000:])
+        m = re.search(r'M\s*=\s*(.*?)\s*:\s*list', log, re.S)
+        if not m:
+            raise BuildError('coqc-units-output', log[-3000:])
+        return [su[int(i)][0] for i in re.findall(r'\d+', m.group(1))]
+
+    with ThreadPoolExecutor(max_workers=14) as ex:
+        res = list(ex.map(one, files))
+    return [x for r in res for x in r]
+
+
 def model_obs(sdk, ops, upto, obs=None):
     """Diagnostics: what the model observes for the step `upto` of a script (printed Coq term)."""
     d = os.path.join(BUILD, 'cases')
